@@ -124,7 +124,7 @@ class Ctx:
         self.known = {e["signature"]: e for e in self.findings.get("known", [])
                       if e.get("property") == prop}
         self.notes = []
-        self.max_replays = 25
+        self.max_replays = int(os.environ.get("VERIF_MAX_REPLAYS", "25"))
         self._rc = None
 
     # -- violations ---------------------------------------------------------------------
